@@ -24,6 +24,7 @@ EXPLANATION = (
     "the same n as n_jobs. Byte identity across worker counts and equality with in-memory destriping are NOT decided."
     ' (as built) sync provenance follows views of a single per-batch read; the mute may multiply the voltage traces inside the concatenation; the kept range may be held in a slice object built from is_first / is_last flags; one seek shared by all workers is evaluated for worker 0 and worker i.'
     " (D1 as built) the batch loop is modelled as a schedule (start, stride, bound) whether written as `while True` with a break or as `for first_s in range(start, stop, stride)`; the bound must be max_s - 2*TAPER with max_s = ns for the worker that the fan-out's own count designates as last; seeks are keyed by the file a handle was opened on."
+    ' (D1 batch ownership) when worker i starts at batch P[i] of a partition vector built in the enclosing function, it must go on exactly while its next start is below stride * P[i + 1] (the last worker until a batch reaches the end).'
 )
 ASSUMPTIONS = [
     "joblib.Parallel runs each delayed call exactly once (model table); workers write disjoint or identical bytes at the decided offsets",
